@@ -42,7 +42,7 @@ class _FragmentVars(dict):
         raise AnchorNotFound(f"anchor-not-found: fragment of {self._module} no longer defines the local '{key}' the contract reads back")
 
 
-def find_fragment(sources, module, qualname, patterns):
+def find_fragment(sources, module, qualname, patterns, exprs=False):
     import ast
     got = sources.load(module)
     if got is None:
@@ -59,7 +59,11 @@ def find_fragment(sources, module, qualname, patterns):
     for pat in patterns:
         hit = None
         for n in ast.walk(node):
-            if isinstance(n, ast.stmt):
+            if exprs:
+                if isinstance(n, ast.expr) and ast.unparse(n) == pat:
+                    hit = n
+                    break
+            elif isinstance(n, ast.stmt):
                 txt = ast.unparse(n)
                 if txt.startswith(pat):
                     hit = n
@@ -267,6 +271,21 @@ class SymCtx:
         """statement contract: the statements of function `qualname` whose source text (ast.unparse) starts with one
         of `patterns`, in source order (structural anchors, no line numbers); AnchorNotFound if one is missing"""
         return find_fragment(self.ex.sources, module, qualname, patterns)
+
+    def fragment_expr(self, module, qualname, pattern):
+        """the first EXPRESSION of the function whose source text (ast.unparse) equals `pattern` - survives a statement being
+        rewritten around it (loop -> comprehension)"""
+        return find_fragment(self.ex.sources, module, qualname, [pattern], exprs=True)[0]
+
+    def eval_fragment(self, module, node, env):
+        m = self.module(module)
+        e = I.Env(m.env, dict(env))
+        try:
+            return self.it.eval(node, e, m)
+        except I.IRaise as r:
+            if isinstance(r.exc, (NameError, UnboundLocalError)):
+                raise AnchorNotFound(f"anchor-not-found: expression of {module} reads a local the contract does not provide ({r.exc})")
+            raise
 
     def run_fragment(self, module, stmts, env):
         """executes the anchored statements with the locals the contract provides.  A statement contract depends on the NAMES of
@@ -523,6 +542,18 @@ class NativeCtx:
 
     def fragment(self, module, qualname, patterns):
         return find_fragment(Sources(), module, qualname, patterns)
+
+    def fragment_expr(self, module, qualname, pattern):
+        return find_fragment(Sources(), module, qualname, [pattern], exprs=True)[0]
+
+    def eval_fragment(self, module, node, env):
+        import ast, importlib
+        g = dict(vars(importlib.import_module(module)))
+        g.update(env)
+        try:
+            return eval(compile(ast.fix_missing_locations(ast.Expression(body=node)), f"<expression of {module}>", "eval"), g)
+        except NameError as ex:
+            raise NativeSkip(f"expression reads a local the contract does not provide: {ex}")
 
     def run_fragment(self, module, stmts, env):
         import ast, importlib
